@@ -236,6 +236,8 @@ pub struct C17Out {
 pub fn check(case: &C17Case) -> C17Out {
     let c1 = build(&case.defs, &case.order1);
     let c2 = build(&case.defs, &case.order2);
+    // a runner (and `Cucumber`) can be cloned: the copy must match exactly like the original
+    let c3 = c1.clone();
     let res: Vec<Regex> = case.defs.iter().map(|d| Regex::new(&d.re).unwrap()).collect();
     let mut viol = vec![];
     let mut nontrivial = false;
@@ -246,6 +248,7 @@ pub fn check(case: &C17Case) -> C17Out {
         let exp = reference(&case.defs, &res, *ty, text);
         let got1 = observe(&c1, &step);
         let got2 = observe(&c2, &step);
+        let got3 = observe(&c3, &step);
         rows.push(json!({"keyword": KW[*ty], "text": text, "expected": format!("{exp:?}")}));
         match &exp {
             Outcome::Ambiguous(_) => {
@@ -271,6 +274,8 @@ pub fn check(case: &C17Case) -> C17Out {
                 _ => "verdict",
             };
             viol.push(v(clause, format!("step {:?} `{text}` over definitions {:?}: find() gave {got1:?}, regex API says {exp:?}", ["Given", "When", "Then"][*ty], case.defs.iter().map(|d| (d.ty, &d.re, d.loc)).collect::<Vec<_>>())));
+        } else if got3 != got1 {
+            viol.push(v("cloned-collection-differs", format!("step {:?} `{text}`: the collection gives {got1:?}, its clone gives {got3:?}", ["Given", "When", "Then"][*ty])));
         } else if got2 != got1 {
             viol.push(v("registration-order-dependent", format!("step `{text}`: registration order {:?} gives {got1:?}, order {:?} gives {got2:?}", case.order1, case.order2)));
         }
